@@ -42,13 +42,16 @@ def write_conf(model_dir, aperture_dependent, logd_step=0.02, version=None, name
             f.write('version = %d\n' % version)
 
 
-def write_parameters(model_dir, names, params, order=None, width=30, filename='parameters.fits', fmt='D', gz=False):
-    """params: {column: [value per model]} in the order of `names`; `order` permutes the rows."""
+def write_parameters(model_dir, names, params, order=None, width=30, filename='parameters.fits', fmt='D', gz=False, name_pos=0):
+    """params: {column: [value per model]} in the order of `names`; `order` permutes the rows; the MODEL_NAME column is the
+    name_pos-th column of the table (consumers address it by name)."""
     idx = list(range(len(names))) if order is None else list(order)
-    cols = [fits.Column(name='MODEL_NAME', format='%dA' % width, array=np.array([names[i] for i in idx], dtype='S%d' % width))]
+    cols = []
     for key in params:
         cols.append(fits.Column(name=key, format=fmt, array=np.array([params[key][i] for i in idx],
                                                                       dtype=float if fmt == 'D' else np.float32)))
+    cols.insert(min(max(int(name_pos), 0), len(cols)),
+                fits.Column(name='MODEL_NAME', format='%dA' % width, array=np.array([names[i] for i in idx], dtype='S%d' % width)))
     hdu0 = fits.PrimaryHDU()
     hdu0.header['NMODELS'] = len(names)
     hdu1 = fits.BinTableHDU.from_columns(cols)
